@@ -519,10 +519,22 @@ class SpecEval:
             pats = []
             seen = set()
 
+            _mb = {}
+
             def mentions_bv(t):
-                if t.get_id() == bv.get_id():
-                    return True
-                return any(mentions_bv(c) for c in t.children()) if z3.is_app(t) else True
+                k = t.get_id()
+                if k in _mb:
+                    return _mb[k]
+                if k == bv.get_id():
+                    r = True
+                elif z3.is_quantifier(t):
+                    r = mentions_bv(t.body())
+                elif z3.is_app(t):
+                    r = any(mentions_bv(c) for c in t.children())
+                else:
+                    r = False
+                _mb[k] = r
+                return r
 
             def walk(t):
                 if t.get_id() in seen or not z3.is_app(t):
@@ -551,11 +563,15 @@ class SpecEval:
                 uniq[t.get_id()] = t
             flat = list(uniq.values())
             body_q = z3.Implies(z3.And(lo <= bv, bv < hi), body)
+            flat = [t for t in flat if model_pattern_ok(t)][:8]
             if flat:
                 try:
-                    return z3.ForAll([bv], body_q, patterns=[t for t in flat if model_pattern_ok(t)][:8] or None)
+                    return z3.ForAll([bv], body_q, patterns=flat, qid='q_idx_%s' % args[0][1])
                 except z3.Z3Exception:
                     pass
+            import os as _os
+            if _os.environ.get('VERIF_DEBUG_PAT'):
+                print('forallidx: no usable pattern among', [str(z3.simplify(t))[:300] for t in pats][:3])
             return forall([bv], body_q)
         if name in ('forall', 'exists'):
             if args[0][0] != 'id':
@@ -646,6 +662,8 @@ class SpecEval:
             sorts = [{'S': m.Str, 'I': m.Int, 'B': m.Bool}[c] for c in SPEC_UFS[name]]
             f = m.uf(name, *sorts)
             return f(*[self.eval_term(a, env) for a in args])
+        if name == 'ssub':
+            return m.ssub(self.eval_term(args[0], env), self.eval_term(args[1], env), self.eval_term(args[2], env))
         if name == 'slen':
             return m.slen(self.eval_term(args[0], env))
         if name == 'srunes':
